@@ -213,6 +213,41 @@ Proof. intros c i j Hc. unfold gen_tab_2. rewrite map_length, seq_length.
   unfold bhb, mmul, cadj, mnth. apply (@sumn_ext Cx); intros l _. now rewrite !nth_map_seq by assumption. Qed.
 End Tables.
 
+(* ---------------------------------------------------------------- the two helpers that read the sparse tables:  table . k_mat.flatten(), reshaped.
+   `flatten()` is the ROW-MAJOR vectorisation whatever the memory layout of k_mat (a layout-dependent `ravel(order="A")` is outside the
+   translator's subset); with the tables of C18_gen_tab_1 / _2 (wiring "T": column c = flattened list entry c) these are the model's
+   j_of_k_sparse / k_part_sparse, which Props/C18_sparse_tables proves equal to the slow formulas *)
+Theorem C18_gen_sparse_helpers (d : nat) (B : nat -> cmat) (K : cmat) :
+  (forall i j, gen_j_of_k_sparse F d (tab_j d B) K i j = j_of_k_sparse d B K i j) /\
+  (forall s t, gen_k_part_sparse F d (tab_k d B) K s t = k_part_sparse d B K s t) /\
+  gen_sparse_tables = [("_calc_j_mat_from_k_mat_with_sparsity"%string, "basishermitian_basis_T_from_1"%string);
+                       ("_calc_k_part_from_k_mat_with_sparsity"%string, "basis_basisconjugate_T_sparse_from_1"%string)].
+Proof. split; [|split; [|reflexivity]].
+  - intros i j. unfold gen_j_of_k_sparse, j_of_k_sparse. cbv zeta. unfold mscale. now rewrite mhalf_eq.
+  - intros s t. reflexivity. Qed.
+
+(* ---------------------------------------------------------------- calc_proj_ineq_constraint: the clipping loop (in-place, index by index) sets
+   exactly the negative eigenvalues to 0 — for EVERY list, also when all or none of them are negative —, the new dissipator matrix is
+   V diag(l') V^dagger, and the rebuild receives h_mat, j_mat and that matrix *)
+Lemma nth_app_len (p q : list F) x dflt : nth (List.length p) (p ++ x :: q) dflt = x.
+Proof. induction p; [reflexivity|exact IHp]. Qed.
+Lemma lset_app_len (p q : list F) x v : lset F (p ++ x :: q) (List.length p) v = p ++ v :: q.
+Proof. induction p as [|a p IH]; [reflexivity|]. cbn [app List.length lset]. now rewrite IH. Qed.
+Lemma fold_clip (clip : F -> F) (test : F -> bool) (v : F) : (forall x, clip x = if test x then v else x) ->
+  forall q p, fold_left (fun l i => if test (nth i l (c0 F)) then lset F l i v else l) (seq (List.length p) (List.length q)) (p ++ q) = p ++ map clip q.
+Proof. intros Hc. induction q as [|x q IH]; intros p; [reflexivity|]. cbn [List.length seq fold_left map].
+  rewrite nth_app_len, lset_app_len.
+  assert (E : (if test x then p ++ v :: q else p ++ x :: q) = (p ++ [clip x]) ++ q).
+  { rewrite Hc. destruct (test x); now rewrite <- app_assoc. }
+  rewrite E. replace (S (List.length p)) with (List.length (p ++ [clip x])) by (rewrite app_length; cbn; lia).
+  rewrite IH. now rewrite <- app_assoc. Qed.
+Theorem C18_gen_proj_ineq (d : nat) (l : list F) (V : cmat) :
+  (forall i j, gen_proj_ineq_kmat F d l V i j = proj_ineq_kmat d l V i j) /\
+  gen_proj_ineq_args = ["h"%string; "j"%string; "new_k"%string].
+Proof. split; [|reflexivity]. intros i j. unfold gen_proj_ineq_kmat, proj_ineq_kmat. cbv zeta. cbn [ofnat].
+  pose proof (fold_clip (fun x => if fltb F x (c0 F) then c0 F else x) (fun x => rltb F x (c0 F)) (c0 F) (fun x => eq_refl) l []) as E.
+  cbn [List.length app] in E. rewrite E. reflexivity. Qed.
+
 (* which attribute is made from which list by which final operation *)
 Theorem C18_gen_tab_wiring : gen_tab_wiring =
   [("_basisconjugate_basis_sparse"%string, (0%nat, "conjugate"%string)); ("_basis_basisconjugate_T_sparse"%string, (0%nat, "T"%string));
@@ -227,4 +262,6 @@ Print Assumptions C18_gen_jump_parts.
 Print Assumptions C18_gen_tab_0.
 Print Assumptions C18_gen_tab_1.
 Print Assumptions C18_gen_tab_2.
+Print Assumptions C18_gen_sparse_helpers.
+Print Assumptions C18_gen_proj_ineq.
 Print Assumptions C18_gen_tab_wiring.
